@@ -31,10 +31,12 @@ var verifC14Metrics map[string]*structs.MetricsMeta
 var verifC14SegVictims map[string]*structs.SegMeta
 var verifC14MetricVictims map[string]*structs.MetricsMeta
 
-func verifC14Now() time.Time                                         { return time.UnixMilli(verifC14NowMs) }
-func verifC14SegMetas(readFullMeta bool) []*structs.SegMeta           { return verifC14Segs }
-func verifC14MetricMetas(f string) (map[string]*structs.MetricsMeta, error) { return verifC14Metrics, nil }
-func verifC14DeleteSegs(m map[string]*structs.SegMeta)               { verifC14SegVictims = m }
+func verifC14Now() time.Time                                { return time.UnixMilli(verifC14NowMs) }
+func verifC14SegMetas(readFullMeta bool) []*structs.SegMeta { return verifC14Segs }
+func verifC14MetricMetas(f string) (map[string]*structs.MetricsMeta, error) {
+	return verifC14Metrics, nil
+}
+func verifC14DeleteSegs(m map[string]*structs.SegMeta) { verifC14SegVictims = m }
 func verifC14DeleteMetricSegs(f string, m map[string]*structs.MetricsMeta) {
 	verifC14MetricVictims = m
 }
